@@ -143,7 +143,9 @@ def check(prop, tier, seed):
         for c in cases:
             iv, mv, v = impl.get(c.cid, {}), model.get(c.cid, {}), verdict.get(c.cid, 'FAIL clause=no-verdict')
             if v.startswith('SKIP'):
+                # outside the property's domain (decided on the case alone): nothing is claimed
                 skipped += 1
+                continue
             if is_fail(v):
                 fails.append(c)
             if 'NOCORR' in mv:
